@@ -142,6 +142,15 @@ pub fn suite_pin(t: &mut Tracer, thorough: bool, seed: u64) {
         );
         emit(t, "pin_flip", m, meas.panicked);
     }
+    // -- the pin is checked against the clock on every connection of an endpoint, not only the first
+    {
+        let rt = tokio::runtime::Builder::new_multi_thread().worker_threads(2).enable_all().build().unwrap();
+        let mut m = Map::new();
+        for (k, v) in rt.block_on(crate::e2e::measure_reconnect_after_expiry(4)) {
+            put(&mut m, &k, v);
+        }
+        emit(t, "pin_reconnect", m, false);
+    }
 }
 
 // ------------------------------------------------------------------------- C19
